@@ -7,7 +7,7 @@ from .. import timer_common
 class Prop:
     id = "C06"
     lean_module = "MuduoVerif.Props.C06"
-    gen_engines = ["Timer", "TimerSkel"]
+    gen_engines = ["Timer", "TimerSkel", "LoopSkel"]
     drivers = ["timer"]
     technique = ("Lean 4 invariant proofs over a transition-system model of TimerQueue (all operation sequences, clock "
                  "readings, allocation orders) + T1 extraction of constants/guards from the clang AST + differential run of the "
@@ -73,6 +73,9 @@ class Prop:
         "vlib/gen/timerskel.py (clang-14 JSON AST -> Generated/TimerSkel.lean: statement skeletons of the 12 modelled functions of "
         "TimerQueue.cc/Timer.cc) and the reading of Model/Timer.lean written down in Model/TimerSkelDecl.lean; the two are proved equal "
         "(statement_order_tied)",
+        "vlib/gen/loopskel.py (clang-14 JSON AST -> Generated/LoopSkel.lean: statement skeletons of every function of EventLoop.cc, here "
+        "runAt / runAfter / runEvery / cancel) and the reading Model/LoopSkelDecl.lean of what Timer.deadlineOf assumes of them; proved equal "
+        "(timer_api_statement_order_tied)",
         "hand-written Model/Timer.lean (std::set as sorted list, the EventLoop API wrappers, the functor queue), tied by the differential run "
         "(harness/timer_drv.cc vs lean/Driver/TimerDrv.lean) on every event, every armed value and the timerfd state after every step",
         "harness/interpose.h virtual clock / virtual timerfd; harness/loopstep.h",
